@@ -80,10 +80,56 @@ var _ *pb.SharedGroupProposal
 //@ modifies nothing
 
 // sending touches nothing the loop's bookkeeping depends on
-//@ func (*storage/raft.RaftTransport).Send
+// C05 (what leaves the node): every raft message of the Ready is handed, at most once, to the transport client of the node it
+// is addressed to, wrapped with THIS group's id and the message's own encoding; a message that cannot be delivered is reported
+// to raft as unreachable (and a snapshot message as failed) - never as delivered
+//@ func (*github.com/coreos/etcd/raft/raftpb.Message).Marshal
 //@ props C03 C05
 //@ assume
 //@ modifies nothing
+//@ func iface:protobuf.RaftTransportClient.Receive
+//@ props C03 C05
+//@ assume
+//@ modifies nothing
+//@ func (*storage/raft.RaftGroup).reportUnreachable
+//@ props C03 C05
+//@ assume
+//@ modifies nothing
+//@ func (*storage/raft.RaftGroup).reportSnapshot
+//@ props C03 C05
+//@ assume
+//@ modifies nothing
+//@ func (*storage/raft.RaftTransport).Send
+//@ props C03 C05
+//@ safety UNCLAIMED
+//@ ghost enc []byte = nil
+//@ ghost encOK int = 0
+//@ ghost to uint64 = 0
+//@ ghost haveClient int = 0
+//@ ghost delivered int = 0
+//@ at call Message).Marshal
+//@ set enc = $ret0
+//@ set encOK = ite(isnil($ret1), 1, 0)
+//@ set haveClient = 0
+//@ set delivered = 0
+//@ end
+//@ at call RaftTransport).getNodeRaftTransportClient
+//@ requires [C05 client-of-the-addressee] $arg1 == m.To && encOK == 1
+//@ set to = $arg1
+//@ set haveClient = ite(isnil($ret1), 1, 0)
+//@ end
+//@ at call RaftTransportClient.Receive
+//@ requires [C05 message-goes-to-its-addressee-under-this-groups-id] haveClient == 1 && to == m.To && $arg2 != nil && $arg2.Message == enc && uuidOfBytes($arg2.GroupId) == group.id && delivered == 0
+//@ set delivered = ite(isnil($ret1), 1, 0)
+//@ end
+//@ at call RaftGroup).reportUnreachable
+//@ requires [C05 only-undelivered-messages-are-reported-unreachable] $arg1 == m.To && delivered == 0
+//@ end
+//@ at call RaftGroup).reportSnapshot
+//@ requires [C05 snapshot-status-follows-delivery] $arg1 == m.To && m.Type == 7 && ($arg2 == 1) == (delivered == 1)
+//@ end
+//@ requires [wf] this.clusterConn != nil && group != nil && !isnil(ctx)
+//@ modifies map(this.clusterConn.conns)
 
 // the registered state-machine callbacks may change anything except the raft group's own bookkeeping
 //@ func field:storage/raft.RaftGroup.processFn
@@ -306,7 +352,10 @@ var _ *pb.SharedGroupProposal
 
 //@ func (*storage/raft.RaftTransport).addGroup
 //@ props C05 C14
-//@ assume
+//@ requires [wf] this.groups != nil && group != nil
+//@ ensures [C05 registered-under-its-own-id] isnil(ret) ==> has(this.groups, group.id) && this.groups[group.id] == group && !old(has(this.groups, group.id))
+//@ ensures [C05 taken-id-is-refused] old(has(this.groups, group.id)) ==> ret == GroupAlreadyExistsError && this.groups[group.id] == old(this.groups[group.id])
+//@ ensures [others] forall j uuid.UUID :: j != group.id ==> has(this.groups, j) == old(has(this.groups, j)) && this.groups[j] == old(this.groups[j])
 //@ modifies map(this.groups)
 
 //@ func storage/raft.NewRaftGroup
